@@ -1169,3 +1169,37 @@ Lemma relative_chain_agree :
   y_run_file (mkctx "gp/src" "work" t_rel_chain) = g_run_file (mkctx "gp/src" "work" t_rel_chain)
   /\ snd (y_run_file (mkctx "gp/src" "work" t_rel_chain)) = None.
 Proof. split; vm_compute; reflexivity. Qed.
+
+(* ------------------------------------------------------------------ *)
+(** * The cycle check covers both branches of importSrc *)
+
+(** a package that is being loaded ([rdir], not yet in the memo) and is imported again — through a
+    GOPATH/vendor path or through a relative path — is reported as an import cycle at once *)
+Lemma cycle_check_any_branch c f s rp i d rp' :
+  assoc (y_key i) (y_memo s) = None -> In (y_key i) (y_rdir s) ->
+  y_find c rp (y_key i) = Found d rp' ->
+  y_load c (S f) s rp i = (s, Some ECycle).
+Proof.
+  intros Ha Hr Hf. rewrite y_load_S, Ha, Hf.
+  apply mem_path_In in Hr. now rewrite Hr.
+Qed.
+
+(** for a relative import nothing else can happen: the relative branch always yields a directory *)
+Lemma cycle_check_relative c f s rp i :
+  is_rel (y_key i) = true -> assoc (y_key i) (y_memo s) = None -> In (y_key i) (y_rdir s) ->
+  y_load c (S f) s rp i = (s, Some ECycle).
+Proof.
+  intros Hrel Ha Hr. eapply cycle_check_any_branch; try eassumption.
+  unfold y_find. rewrite Hrel. reflexivity.
+Qed.
+
+Local Open Scope string_scope.
+
+(** a cycle made of relative imports only (main.go -> ./a -> ../b -> ../a), entered by a file *)
+Definition t_rel_cycle : tree :=
+  [mkpkg "work" ["./a"]; mkpkg "work/a" ["../b"]; mkpkg "work/b" ["../a"]].
+
+Lemma relative_cycle_reported :
+  snd (y_run_file (mkctx "gp/src" "work" t_rel_cycle)) = Some ECycle
+  /\ snd (g_run_file (mkctx "gp/src" "work" t_rel_cycle)) = Some ECycle.
+Proof. split; vm_compute; reflexivity. Qed.
